@@ -153,7 +153,7 @@ func (r *runner) runPlan(seed uint64, plan chainPlan, full bool) {
 		// the extracted accept_ev must accept the valid block (its resulting chain state becomes slot i+1)
 		if vb := mk(); !modelAccept(r.or, network, i, i+1, vb) {
 			r.c.Violation("accept-verdict:reject-vs-accept:valid", fmt.Sprintf("chain %d block %d (%s): the extracted accept rejects the block juno's own Finalise produced roots for: %s",
-				seed, i, ctx.Version, modelExplain(r.or, network, i, vb)), replayCase{ChainSeed: seed, Pos: i, Kind: "valid", Tour: full}, true)
+				seed, i, ctx.Version, modelExplain(r.or, network, i, vb)), replayCase{ChainSeed: seed, Pos: i, Kind: "valid", Tour: full && !r.sparse, Sparse: r.sparse}, true)
 			return
 		}
 		r.c.Hist["model-verdict:valid:accept"]++
@@ -262,7 +262,7 @@ func (r *runner) sweepFollower(fols []*follower, fi int, emit func(func()), mvs 
 				<-pending.done
 				mv, haveMV = pending.val, true
 			}
-			rc := replayCase{ChainSeed: seed, Pos: i, Tamper: name, Rehash: rehash, NewState: fo.newState, Kind: "tamper", Tour: full}
+			rc := replayCase{ChainSeed: seed, Pos: i, Tamper: name, Rehash: rehash, NewState: fo.newState, Kind: "tamper", Tour: full && !r.sparse, Sparse: r.sparse}
 			emit(func() { r.c.Count(fmt.Sprintf("%d/%d/%s/%s/%v", seed, i, be, name, rehash), true) })
 			if haveMV && pan == "" {
 				emit(func() {
@@ -315,7 +315,7 @@ func (r *runner) sweepFollower(fols []*follower, fi int, emit func(func()), mvs 
 		(cm.StateDiffCommitment != nil && !feq(cm.StateDiffCommitment, &f.M.SdH)) {
 		viol("stored-commitments-differ:"+be, fmt.Sprintf("chain %d block %d (%s): stored %+v (%v), model tx %s ev %s rc %s sd %s len %d",
 			seed, i, ctx.Version, cm, cerr, &f.M.TxC, &f.M.EvC, &f.M.RcC, &f.M.SdH, f.M.SdLen),
-			replayCase{ChainSeed: seed, Pos: i, NewState: fo.newState, Kind: "valid", Tour: full}, false)
+			replayCase{ChainSeed: seed, Pos: i, NewState: fo.newState, Kind: "valid", Tour: full && !r.sparse, Sparse: r.sparse}, false)
 	}
 	emit(func() { r.c.Hist["accepted:"+be]++ })
 	return false
